@@ -510,7 +510,7 @@ fn main() {
     check.assume("event timestamps read the wall clock and are not compared between legs");
     check.assume("path migration events are not produced: the workload uses one path per connection");
     check.max_shrink_iters = 60;
-    let n = check.pick(600, 40_000);
+    let n = check.pick(1_000, 40_000);
     check.stage("traces-and-purity", n, 16, case_strategy, oracle);
     check.finish();
 }
